@@ -90,9 +90,11 @@ pub fn exec_kahn(input: &Value) -> (Value, Value) {
     };
     // two distinct nodes may carry the same name (`Config` of src/db.rs and of src/app.rs, a command `user` in module
     // `user`): a node is its (name, path, kind); `alias` maps a label to the name it shows
+    let backslash = input.get("path_style").and_then(|x| x.as_str()) == Some("backslash");
     let mk = |n: &str| DependencyNode {
         name: input["alias"].get(n).and_then(|x| x.as_str()).unwrap_or(n).to_string(),
-        path: format!("src/{}.rs", n),
+        // a path as recorded on another platform (`src\\models\\T1.rs`): a node is its (name, path, kind) as given
+        path: if backslash { format!("src\\models\\{}.rs", n) } else { format!("src/{}.rs", n) },
         node_type: kind_of(n),
     };
     let mut r = DependencyResolver::new();
@@ -123,7 +125,7 @@ pub fn exec_kahn(input: &Value) -> (Value, Value) {
         }
     }
     let imp = guarded(|| match r.resolve_build_order() {
-        Ok(v) => json!({"ok": v.iter().map(|n| n.path.trim_start_matches("src/").trim_end_matches(".rs").to_string()).collect::<Vec<_>>()}),
+        Ok(v) => json!({"ok": v.iter().map(|n| n.path.trim_start_matches("src/").trim_start_matches("src\\models\\").trim_end_matches(".rs").to_string()).collect::<Vec<_>>()}),
         Err(e) => json!({"err": e.to_string()}),
     });
     (input.clone(), imp)
@@ -306,6 +308,23 @@ pub fn run(out: &mut Out, tier: &str, rng: &mut Rng) {
             edges.swap(i, j);
         }
         kahn_case(out, n, &edges, "rand");
+        if k % 5 == 2 {
+            let nodes: Vec<String> = (0..n).map(name).collect();
+            let es: Vec<Value> = edges.iter().map(|&(f, t)| json!([name(f), name(t)])).collect();
+            out.case("kahn", json!({"nodes": nodes, "edges": es, "path_style": "backslash"}), json!({"n": n, "tag": "rand-backslash"}));
+        }
+        if k % 5 == 3 {
+            // labels that look special to a type walker (`Self`, a primitive's name, a wrapper's name) are labels like any other
+            let special = ["Self", "self", "String", "Option", "Vec", "T", "Result", "Box", "u8", "()"];
+            let ren = |i: usize| -> String { if i < 3 { special[(k / 5 + i * 3) % special.len()].to_string() } else { name(i) } };
+            let mut graph: Vec<Value> = Vec::new();
+            for i in 0..n {
+                let deps: Vec<String> = (0..n).filter(|j| adj[i] >> j & 1 == 1).map(ren).collect();
+                graph.push(json!([ren(i), deps]));
+            }
+            let request: Vec<String> = (0..n).filter(|i| subset >> i & 1 == 1).map(ren).collect();
+            out.case("topo", json!({"graph": graph, "request": request}), json!({"n": n, "tag": "rand-special-labels"}));
+        }
         if k % 4 == 1 {
             let nodes: Vec<String> = (0..n).map(name).collect();
             let es: Vec<Value> = edges.iter().map(|&(f, t)| json!([name(f), name(t)])).collect();
